@@ -16,6 +16,7 @@ import (
 	"context"
 	"encoding/binary"
 	"encoding/json"
+	"errors"
 	"fmt"
 	"os"
 	"runtime"
@@ -26,10 +27,14 @@ import (
 
 	cid "github.com/ipfs/go-cid"
 	dshelp "github.com/ipfs/boxo/datastore/dshelp"
+	"github.com/ipld/go-ipld-prime/linking"
+	cidlink "github.com/ipld/go-ipld-prime/linking/cid"
+	"github.com/sourcenetwork/corekv"
 
 	"github.com/sourcenetwork/defradb/client"
 	coreblock "github.com/sourcenetwork/defradb/internal/core/block"
 	"github.com/sourcenetwork/defradb/event"
+	"github.com/sourcenetwork/defradb/internal/datastore"
 	"github.com/sourcenetwork/defradb/internal/db"
 	"github.com/sourcenetwork/defradb/internal/encryption"
 	"github.com/sourcenetwork/defradb/internal/verifh/crdtx"
@@ -128,7 +133,7 @@ func newC11Node() (*c11Node, error) {
 }
 
 type c11Stats struct {
-	cases, steps, blocksScanned, eventsScanned, patternsSearched, deliveries, readbacks int64
+	cases, steps, blocksScanned, eventsScanned, patternsSearched, deliveries, readbacks, mergeRetries, receiverKeys int64
 	outcomes                                                                       sync.Map
 }
 
@@ -229,6 +234,11 @@ func runC11(args []string) int {
 	r.Coverage["update_events_scanned"] = st.eventsScanned
 	r.Coverage["pattern_searches"] = st.patternsSearched
 	r.Coverage["deliveries_to_keyless_and_keyed_receivers"] = st.deliveries
+	r.Coverage["merges_retried_after_conflict_with_key_save"] = st.mergeRetries
+	r.Coverage["keys_found_in_key_stores_of_keyed_receivers"] = st.receiverKeys
+	if st.receiverKeys == 0 {
+		rep.HarnessError("C11: no keyed receiver ever held a key: the receiver-side scan would be vacuous")
+	}
 	r.Coverage["readbacks_compared"] = st.readbacks
 	r.Coverage["exhaustive"] = true
 	r.Assumptions = []string{
@@ -482,6 +492,13 @@ func c11Run(r *rep.Run, st *c11Stats, a, b, k *c11Node, c c11Case) error {
 					if rcv.withKey {
 						for _, l := range req.Keys {
 							if v, ok := sn.Get(encKey(l.Cid)); ok {
+								// as the key service does (kms/pubsub.go): save the key in the key store, then answer
+								var eb coreblock.Encryption
+								if err := eb.Unmarshal(v); err == nil {
+									lsys := cidlink.DefaultLinkSystem()
+									lsys.SetWriteStorage(datastore.EncstoreFrom(rcv.n.st).AsIPLDStorage())
+									_, _ = lsys.Store(linking.LinkContext{Ctx: ctx}, coreblock.GetLinkPrototype(), eb.GenerateNode())
+								}
 								res.Items = append(res.Items, encryption.Item{Link: l.Cid.Bytes(), Block: v})
 							}
 						}
@@ -492,7 +509,15 @@ func c11Run(r *rep.Run, st *c11Stats, a, b, k *c11Node, c c11Case) error {
 		}()
 		for _, cc := range cids {
 			atomic.AddInt64(&st.deliveries, 1)
-			if err := crdtx.Deliver(ctx, rcv.n.db, rcv.n.st, sn, docID, rcv.n.colID, cc); err != nil {
+			var err error
+			for try := 0; try < rcv.n.db.MaxTxnRetries(); try++ {
+				// the merge is retried on a conflict with the key service's write, as in handleMessages
+				if err = crdtx.Deliver(ctx, rcv.n.db, rcv.n.st, sn, docID, rcv.n.colID, cc); !errors.Is(err, corekv.ErrTxnConflict) {
+					break
+				}
+				atomic.AddInt64(&st.mergeRetries, 1)
+			}
+			if err != nil {
 				close(stop)
 				<-done
 				rcv.n.db.Events().Unsubscribe(ksub)
@@ -504,6 +529,36 @@ func c11Run(r *rep.Run, st *c11Stats, a, b, k *c11Node, c c11Case) error {
 		rcv.n.db.Events().Unsubscribe(ksub)
 		if rcv.withKey {
 			readback(rcv.n, "receiver holding the key", len(c.Steps))
+			// the receiver that obtained the keys: key material only in its key store, no plaintext in its blocks
+			var keys [][]byte
+			rsn := rcv.n.st.Snapshot()
+			rsn.Each(func(key string, v []byte) {
+				if strings.HasPrefix(key, "/db/enc/") {
+					if eb, err := coreblock.GetEncryptionBlockFromBytes(v); err == nil && len(eb.Key) > 0 {
+						keys = append(keys, eb.Key)
+					}
+				}
+			})
+			atomic.AddInt64(&st.receiverKeys, int64(len(keys)))
+			rsn.Each(func(key string, v []byte) {
+				atomic.AddInt64(&st.blocksScanned, 1)
+				if strings.HasPrefix(key, "/db/enc/") {
+					return
+				}
+				for _, kb := range keys {
+					if bytes.Contains(v, kb) {
+						violation("key-outside-encstore-on-receiver", key, "contains an encryption key", len(c.Steps))
+					}
+				}
+				if strings.HasPrefix(key, "/db/blocks/") {
+					for _, p := range patterns {
+						atomic.AddInt64(&st.patternsSearched, 1)
+						if bytes.Contains(v, p.Bytes) {
+							violation("plaintext-in-blockstore-of-keyed-receiver:"+c11FirstWrite(c, p.Field, len(c.Steps)), key, fmt.Sprintf("contains the value %s of encrypted field %s", p.Text, p.Field), len(c.Steps))
+						}
+					}
+				}
+			})
 			continue
 		}
 		rcv.n.st.Snapshot().Each(func(key string, v []byte) {
